@@ -202,10 +202,10 @@ func (r *Run) checkEffectTable(P string, windowOnly bool) {
 			}
 			ret := path[len(path)-1].Instrs[len(path[len(path)-1].Instrs)-1].(*ssa.Return)
 			var row effectRow
-			if !isNilConstV(ret.Results[ei]) {
+			if !isNilConstV(core.RetOp(ret, ei)) {
 				row = errRow
 			} else {
-				row = r.stateOnPath(ff, path, ret.Results[0], role)
+				row = r.stateOnPath(ff, path, core.RetOp(ret, 0), role)
 			}
 			if row.Err && failing == "" {
 				failing = "unknown:error-without-recognised-check"
@@ -267,7 +267,7 @@ func (r *Run) checkEffectTable(P string, windowOnly bool) {
 
 func retIsErr(b *ssa.BasicBlock, ei int) bool {
 	ret, ok := b.Instrs[len(b.Instrs)-1].(*ssa.Return)
-	return ok && !isNilConstV(ret.Results[ei])
+	return ok && !isNilConstV(core.RetOp(ret, ei))
 }
 
 // stateOnPath classifies the fields of the returned state from the stores
